@@ -109,6 +109,34 @@ def run_case(case):
         clock.restore()
 
 
+def _modified_value(op):
+    """The caller's modified time in the form the case names: timestamp text (usual), or the same instant as an aware datetime (UTC or
+    another offset) or as a STIXdatetime -- new_version documents a timestamp, and the constructors take all of these."""
+    text = op["_modified_text"]
+    how = op.get("as", "text")
+    if how == "text":
+        return text
+    import datetime as dt
+    import pytz
+    from stix2.utils import STIXdatetime
+    t = tsref.parse(text)[0]
+    days, rem = divmod(t, tsref.US_PER_DAY)
+    y, mo, d = tsref.civil_from_days(days)
+    secs, us = divmod(rem, 10 ** 6)
+    fields = (y, mo, d, secs // 3600, secs % 3600 // 60, secs % 60, us)
+    if how == "stixdt":
+        return STIXdatetime(*fields, tzinfo=pytz.utc, precision="millisecond", precision_constraint="min")
+    if how == "datetime-utc":
+        return dt.datetime(*fields, tzinfo=dt.timezone.utc)
+    if how == "datetime-naive":
+        return dt.datetime(*fields)
+    off = dt.timezone(dt.timedelta(hours=5, minutes=30))
+    try:
+        return dt.datetime(*fields, tzinfo=dt.timezone.utc).astimezone(off)
+    except OverflowError:
+        return dt.datetime(*fields, tzinfo=dt.timezone.utc)
+
+
 def _apply(head, form, op, versioning, markings):
     """Perform one versioning call; returns (result, exc)."""
     kind = op["op"]
@@ -125,10 +153,11 @@ def _apply(head, form, op, versioning, markings):
             if op.get("allow_custom") is not None:
                 kw["allow_custom"] = op["allow_custom"]
         elif kind == "set_modified":
+            mval = _modified_value(op)
             if via_cp:
-                kw["custom_properties"] = {"modified": op["_modified_text"]}
+                kw["custom_properties"] = {"modified": mval}
             else:
-                kw["modified"] = op["_modified_text"]
+                kw["modified"] = mval
         elif kind == "new_version" and op.get("modified_none"):
             kw["modified"] = None        # "no modified time given", spelled out: the library's clock decides, as when the keyword is absent
         elif kind == "unmodifiable":
@@ -155,10 +184,12 @@ def _apply(head, form, op, versioning, markings):
             return core.guarded(markings.clear_markings, head) if fn_api else core.guarded(head.clear_markings)
         if how == "gadd":
             return core.guarded(markings.add_markings, head, m, [op["selector"]]) if fn_api else core.guarded(head.add_markings, m, [op["selector"]])
+        if how == "gclear":
+            return core.guarded(markings.clear_markings, head, [op["selector"]]) if fn_api else core.guarded(head.clear_markings, [op["selector"]])
     raise core.HarnessError("unknown op %r" % (op,))
 
 
-def _expected_marking_doc(prev_doc, op):
+def _expected_marking_doc(prev_doc, op, got=None):
     """Expected document (without modified) after a marking operation that must produce a new version, or None
     when the operation has nothing to do on this state (both refusal and an unchanged object are documented)."""
     m = S.MARKING_IDS[op["marking"] % len(S.MARKING_IDS)]
@@ -182,6 +213,19 @@ def _expected_marking_doc(prev_doc, op):
         if (op["selector"], mm.REF, m) not in mm.read_pairs(prev_doc):
             gm.append({"marking_ref": m, "selectors": [op["selector"]]})
         exp["granular_markings"] = gm
+    elif how == "gclear":
+        # every (selector, marking) pair on exactly that selector goes; how the remaining pairs are grouped into entries is the library's business
+        pairs = set(mm.read_pairs(prev_doc))
+        keep = {p for p in pairs if p[0] != op["selector"]}
+        if keep == pairs:
+            return None
+        exp.pop("granular_markings", None)
+        gkeep = {p for p in keep if p[0] != mm.OBJECT}
+        if got is not None and {p for p in mm.read_pairs(got) if p[0] != mm.OBJECT} == gkeep and ("granular_markings" in got) == bool(gkeep):
+            if gkeep:
+                exp["granular_markings"] = got["granular_markings"]
+        elif gkeep:
+            exp["granular_markings"] = "<entries carrying exactly the pairs %s>" % sorted(gkeep)
     return exp
 
 
@@ -256,7 +300,8 @@ def _run(case, clock, versioning):
             t_req = max(tsref.MIN_INSTANT, min(prev_exact + op["delta"], S.LAST_ALLOWED))
             op = dict(op, _modified_text=tsref.fmt(t_req, "any"))
             mrel = clock_rel(t_req - prev_exact)
-        if kind == "mark" and op["how"] == "gadd" and not mm.resolve(prev_doc, op["selector"])[0]:
+            classes.append("modified-as:" + op.get("as", "text"))
+        if kind == "mark" and op["how"] in ("gadd", "gclear") and not mm.resolve(prev_doc, op["selector"])[0]:
             raise core.HarnessError("selector %r not in subject" % op["selector"])
 
         new, exc = _apply(head, form, op, versioning, markings)
@@ -348,7 +393,7 @@ def _run(case, clock, versioning):
             if d.get(p) != prev_doc.get(p):
                 fail("identity-changed:" + p, "%r -> %r" % (prev_doc.get(p), d.get(p)), i)
         # exactness
-        exp = _expected_marking_doc(prev_doc, op) if kind == "mark" else mm.expected_after(prev_doc, expect_changes)
+        exp = _expected_marking_doc(prev_doc, op, d) if kind == "mark" else mm.expected_after(prev_doc, expect_changes)
         diff = mm.differing_keys(d, exp)
         if diff:
             fail("inexact-change", "keys %s: got %s expected %s" % (diff, core.short({k: d.get(k) for k in diff}, 300), core.short({k: exp.get(k) for k in diff}, 300)), i)
@@ -569,6 +614,7 @@ def an_op(draw, typ, version, form, subject):
     elif kind == "set_modified":
         op["delta"] = draw(clock_delta)
         op["changes"] = changes(0)
+        op["as"] = pick(draw, ["text", "text", "text", "stixdt", "datetime-utc", "datetime-offset", "datetime-naive"])
         if draw(st.integers(0, 4)) == 0:
             op["via"] = "custom_properties"
     elif kind == "unmodifiable":
@@ -593,9 +639,9 @@ def an_op(draw, typ, version, form, subject):
                 op["value"] = pick(draw, other + ([None] if cur else []))
         op["changes"] = {}
     elif kind == "mark":
-        op["how"] = pick(draw, ["add", "add", "remove", "clear", "gadd"])
+        op["how"] = pick(draw, ["add", "add", "remove", "clear", "gadd", "gadd", "gclear"])
         op["marking"] = draw(st.integers(0, 2))
-        if op["how"] == "gadd":
+        if op["how"] in ("gadd", "gclear"):
             op["selector"] = pick(draw, ["type", "id", "created"])
         if sco:
             op["api"] = "function"
